@@ -186,18 +186,21 @@ def epq_case_impl(args):
     ps.N = 34
     em = alg.load_module(report.REPO, EM)
     Jm = [[Fr(0), Fr(0), Fr(1), Fr(0)], [Fr(0), Fr(0), Fr(0), Fr(1)], [Fr(-3), Fr(1), Fr(-1, 2), Fr(1, 5)], [Fr(1), Fr(-2), Fr(1, 7), Fr(-1, 3)]] \
-        if bmode == "half" else MATS["general"]
+        if bmode in ("half", "B+half") else MATS["general"]
     n = len(Jm)
     B = None
     if bmode == "B":
         B = ps.lift_array([[Fr(2)], [Fr(-1, 3)]])
+    elif bmode == "B+half":
+        # an input matrix with non-zero rows everywhere, passed together with half=True (documented: `half` is ignored when B is given)
+        B = ps.lift_array([[Fr(2), Fr(1)], [Fr(-1, 3), Fr(0)], [Fr(5, 7), Fr(-2)], [Fr(1, 2), Fr(3)]])
     m = br if isinstance(br, int) else 13
     with warnings.catch_warnings():
         warnings.simplefilter("ignore")
         with Forced(em, BRANCH[br]):
             ps.HWIT = Fr(1, 10) if fn != "getEPQ_hi" else Fr(3)          # getEPQ: norm switch decided at the witness (both sides exercised)
             f = getattr(em, "getEPQ" if fn.startswith("getEPQ_") and fn != "getEPQ_pow" else fn)
-            E, P, Q = f(_amat(Jm), ps.PS.var(), order=order, B=B, half=(bmode == "half"))
+            E, P, Q = f(_amat(Jm), ps.PS.var(), order=order, B=B, half=(bmode in ("half", "B+half")))
             ps.HWIT = Fr(1, 10)
     Et, It, I2t = _truth(Jm, ps.N)
     hh = ps.PS.var()
@@ -212,7 +215,7 @@ def epq_case_impl(args):
     elif bmode == "half":
         Pt = Pt[:, : n // 2]
         Qt = Qt[:, : n // 2] if Qt is not None else None
-    tag = "%s[order=%d, %s, Pade %s]" % (fn, order, {"none": "B=None", "B": "B given", "half": "half=True"}[bmode], br)
+    tag = "%s[order=%d, %s, Pade %s]" % (fn, order, {"none": "B=None", "B": "B given", "half": "half=True", "B+half": "B given and half=True"}[bmode], br)
     if fn == "getEPQ_pow":
         need = 12           # the loop stops on a numeric tolerance at the witness; whatever it summed must be the series
     elif fn in ("getEPQ2", "getEPQ_hi"):
@@ -559,6 +562,7 @@ def run(tier, seed):
     ecases = [(mn, br) for mn in ("general", "upper-triangular", "nearly-triangular", "defective") for br in brs]
     ecases += [("singular", br) for br in (3, 9, "13s0", "13s1")]
     pcases = [(fn, o, bm, br) for fn in ("getEPQ1", "getEPQ2") for o in (0, 1) for bm in ("none", "B", "half") for br in (3, 5, 7, 9, "13s0", "13s1")]
+    pcases += [(fn, o, "B+half", br) for fn in ("getEPQ1", "getEPQ2", "getEPQ_pow", "getEPQ_lo", "getEPQ_hi") for o in (0, 1) for br in ((3,) if fn in ("getEPQ_pow", "getEPQ_lo") else (5, "13s0"))]
     pcases += [("getEPQ_pow", o, bm, 3) for o in (0, 1) for bm in ("none", "B", "half")]
     pcases += [(fn, o, bm, br) for fn, br in (("getEPQ_lo", 5), ("getEPQ_hi", 9), ("getEPQ_hi", "13s1")) for o in (0, 1) for bm in ("none", "B", "half")]
     P = report.pool()
@@ -637,12 +641,19 @@ def float_sweep(repo, quick=True):
             Et, I1t, I2t = tof(E), tof(I1), tof(I2)
             with warnings.catch_warnings():
                 warnings.simplefilter("ignore")
-                got = {"expmint": em.expmint(A, h, True)}
+                got = {}
+                try:
+                    got["expmint"] = em.expmint(A, h, True)
+                except RuntimeError:
+                    pass                 # the power-series fallback refuses explicitly (maximum loops exceeded): a refusal is not a wrong answer
                 for fn in ("getEPQ1", "getEPQ2", "getEPQ", "getEPQ_pow"):
                     if fn == "getEPQ_pow" and h * abs(A).sum() > 30:
                         continue
                     for order in (0, 1):
-                        got["%s(order=%d)" % (fn, order)] = getattr(em, fn)(A, h, order=order)
+                        try:
+                            got["%s(order=%d)" % (fn, order)] = getattr(em, fn)(A, h, order=order)
+                        except RuntimeError:
+                            pass
             for nm, val in got.items():
                 ev += 1
                 if nm == "expmint":
